@@ -1,0 +1,80 @@
+//go:build verif
+
+// Contracts for the contract-based verification in /verif (comment-only file).
+
+package scion
+
+//@ spec func segOf(hf uint8, l0 uint8, l1 uint8) uint8 = ite(int(hf) < int(l0), 0, ite(int(hf) < int(l0)+int(l1), 1, 2))
+//@ spec func shapeOK(l0 uint8, l1 uint8, l2 uint8) bool = (l2 > 0 ==> l1 > 0) && (l1 > 0 ==> l0 > 0) && int(l0)+int(l1)+int(l2) <= 64
+//@ spec func numSegs(l0 uint8, l1 uint8, l2 uint8) int = ite(l2 > 0, 3, ite(l1 > 0, 2, ite(l0 > 0, 1, 0)))
+//@ spec func baseOK(l0 uint8, l1 uint8, l2 uint8, numINF int, numHops int) bool = l0 <= 63 && l1 <= 63 && l2 <= 63 && shapeOK(l0, l1, l2) && numINF == numSegs(l0, l1, l2) && numHops == int(l0)+int(l1)+int(l2)
+
+//@ func (*MetaHdr).DecodeFromBytes
+//@   props C19 C18
+//@   modifies *m
+//@   ensures (result == nil) == (len(raw) >= 4)
+//@   ensures result == nil ==> m.CurrINF == raw[0]>>6 && m.CurrHF == raw[0]&0x3f
+//@   ensures result == nil ==> m.SegLen[0] == (raw[1]&0x3)<<4|raw[2]>>4
+//@   ensures result == nil ==> m.SegLen[1] == (raw[2]&0xf)<<2|raw[3]>>6
+//@   ensures result == nil ==> m.SegLen[2] == raw[3]&0x3f
+//@   ensures result != nil ==> *m == old(*m)
+
+//@ func (*MetaHdr).SerializeTo
+//@   props C19 C18
+//@   modifies b[:]
+//@   ensures (result == nil) == (len(b) >= 4)
+//@   ensures result == nil ==> b[0] == m.CurrINF<<6|m.CurrHF&0x3f
+//@   ensures result == nil ==> b[1] == (m.SegLen[0]&0x3f)>>4
+//@   ensures result == nil ==> b[2] == (m.SegLen[0]&0xf)<<4|(m.SegLen[1]&0x3f)>>2
+//@   ensures result == nil ==> b[3] == (m.SegLen[1]&0x3)<<6|m.SegLen[2]&0x3f
+//@   ensures forall i int :: 4 <= i && i < len(b) ==> b[i] == old(b[i])
+
+//@ func (*Base).infIndexForHF
+//@   props C19
+//@   requires s.PathMeta.SegLen[0] <= 63 && s.PathMeta.SegLen[1] <= 63
+//@   modifies nothing
+//@   ensures result == segOf(hf, s.PathMeta.SegLen[0], s.PathMeta.SegLen[1])
+
+//@ func (*Base).DecodeFromBytes
+//@   props C19
+//@   let l0 = (data[1]&0x3)<<4|data[2]>>4
+//@   let l1 = (data[2]&0xf)<<2|data[3]>>6
+//@   let l2 = data[3]&0x3f
+//@   modifies *s
+//@   ensures (result == nil) == (len(data) >= 4 && shapeOK(l0, l1, l2))
+//@   ensures result == nil ==> s.PathMeta.SegLen[0] == l0 && s.PathMeta.SegLen[1] == l1 && s.PathMeta.SegLen[2] == l2
+//@   ensures result == nil ==> s.PathMeta.CurrINF == data[0]>>6 && s.PathMeta.CurrHF == data[0]&0x3f
+//@   ensures result == nil ==> baseOK(l0, l1, l2, s.NumINF, s.NumHops)
+
+//@ func (*Base).IncPath
+//@   props C19
+//@   let l0 = s.PathMeta.SegLen[0]
+//@   let l1 = s.PathMeta.SegLen[1]
+//@   let l2 = s.PathMeta.SegLen[2]
+//@   let hf = s.PathMeta.CurrHF
+//@   requires baseOK(l0, l1, l2, s.NumINF, s.NumHops) && hf <= 63
+//@   modifies s.PathMeta
+//@   ensures (result == nil) == (int(hf)+1 < s.NumHops)
+//@   ensures result == nil ==> s.PathMeta.CurrHF == hf+1 && s.PathMeta.CurrINF == segOf(hf+1, l0, l1)
+//@   ensures result != nil && s.NumINF != 0 ==> int(s.PathMeta.CurrHF) == s.NumHops-1
+//@   ensures s.PathMeta.SegLen == old(s.PathMeta.SegLen)
+
+//@ func (*Base).IsXover
+//@   props C19
+//@   let l0 = s.PathMeta.SegLen[0]
+//@   let l1 = s.PathMeta.SegLen[1]
+//@   let l2 = s.PathMeta.SegLen[2]
+//@   requires baseOK(l0, l1, l2, s.NumINF, s.NumHops) && s.PathMeta.CurrHF <= 63
+//@   modifies nothing
+//@   ensures result == (int(s.PathMeta.CurrHF)+1 < s.NumHops && s.PathMeta.CurrINF != segOf(s.PathMeta.CurrHF+1, l0, l1))
+
+//@ func (*Base).IsFirstHopAfterXover
+//@   props C19
+//@   let l0 = s.PathMeta.SegLen[0]
+//@   let l1 = s.PathMeta.SegLen[1]
+//@   let l2 = s.PathMeta.SegLen[2]
+//@   requires baseOK(l0, l1, l2, s.NumINF, s.NumHops) && s.PathMeta.CurrHF <= 63
+//@   modifies nothing
+//@   ensures result == (s.PathMeta.CurrINF > 0 && s.PathMeta.CurrHF > 0 && segOf(s.PathMeta.CurrHF-1, l0, l1) == s.PathMeta.CurrINF-1)
+
+//@ lemma xoverAtBoundary C19: forall hf uint8, l0 uint8, l1 uint8, l2 uint8 :: l0 <= 63 && l1 <= 63 && l2 <= 63 && shapeOK(l0, l1, l2) && int(hf)+1 < int(l0)+int(l1)+int(l2) ==> ((segOf(hf+1, l0, l1) != segOf(hf, l0, l1)) == (int(hf)+1 == int(l0) || int(hf)+1 == int(l0)+int(l1)))
